@@ -126,6 +126,9 @@ def sameWorkspace(link, sharePath):
         else:
             return False
         return os.path.samefile(dst, sharePath)
+    except FileNotFoundError:
+        # Removed concurrently or dangling. Either way it is not sharePath.
+        return False
     except OSError as e:
         raise BuildError("Error inspecting workspace: " + str(e))
 
